@@ -776,3 +776,62 @@ Proof.
       destruct Hcw as [_ <-]. eapply cie_write_ok_asz. exact Hw. }
     rewrite <- Ef in *. eapply reader_sees_rows; eassumption.
 Qed.
+
+(* ------------------------------------------------------------------ *)
+(* E. "limits not hit": the limited table is the unlimited one           *)
+(* ------------------------------------------------------------------ *)
+
+Lemma xstep_lim_fits c aa ini s i :
+  match script_step aa ini s i with
+  | Ok s' => xguard_ok c ini s' = true
+  | _ => True
+  end -> xstep_lim c aa ini s i = xstep_lim no_caps aa ini s i.
+Proof.
+  unfold xstep_lim. destruct (script_step aa ini s i) as [s'|e| |]; cbn [bind]; try reflexivity.
+  unfold xguard_ok. intros G. destruct (xguard c ini s') as [[]|e| |]; try discriminate. reflexivity.
+Qed.
+
+Lemma script_cie_fits c aa : forall l s,
+  xfits c aa None s l = true -> script_cie c aa s l = script_cie no_caps aa s l.
+Proof.
+  induction l as [|i r IH]; intros s H; [reflexivity|]. cbn [xfits script_cie] in *.
+  rewrite (xstep_lim_fits c aa None s i).
+  - unfold xstep_lim. destruct (script_step aa None s i) as [s'|e| |]; cbn [bind]; try reflexivity.
+    apply andb_true_iff in H. destruct H as [_ H]. change (xguard no_caps None s') with (Ok tt : res unit). cbn [bind].
+    apply IH. exact H.
+  - destruct (script_step aa None s i); [|exact I|exact I|exact I]. apply andb_true_iff in H. tauto.
+Qed.
+
+Lemma script_fde_fits c aa ini asz init e : forall l cur s,
+  xfits c aa ini s (map snd l) = true ->
+  script_fde c aa ini asz init e cur s l = script_fde no_caps aa ini asz init e cur s l.
+Proof.
+  induction l as [|[off i] r IH]; intros cur s H; [reflexivity|]. cbn [map snd xfits script_fde] in *.
+  assert (E : xstep_lim c aa ini s i = xstep_lim no_caps aa ini s i).
+  { apply xstep_lim_fits. destruct (script_step aa ini s i); [|exact I|exact I|exact I]. apply andb_true_iff in H. tauto. }
+  rewrite E.
+  assert (Hn : forall s', xstep_lim no_caps aa ini s i = Ok s' -> xfits c aa ini s' (map snd r) = true).
+  { intros s' Hs. unfold xstep_lim in Hs. destruct (script_step aa ini s i) as [s1|e1| |]; cbn [bind] in Hs; try discriminate.
+    change (xguard no_caps ini s1) with (Ok tt : res unit) in Hs. cbn [bind] in Hs. injection Hs as <-.
+    apply andb_true_iff in H. tauto. }
+  destruct (cur <? off).
+  - destruct (2 ^ (8 * asz) <=? init + off); [reflexivity|].
+    destruct (xstep_lim no_caps aa ini s i) as [s'|e1| |]; try reflexivity.
+    rewrite (IH off s' (Hn s' eq_refl)). reflexivity.
+  - destruct (xstep_lim no_caps aa ini s i) as [s'|e1| |]; try reflexivity.
+    apply IH. apply Hn. reflexivity.
+Qed.
+
+(* when the occupancy of the unlimited evaluation never exceeds the capacities, the capacities are invisible *)
+Theorem script_fits_unlimited c aa asz init range cie fde :
+  script_fits c aa cie fde = true ->
+  script_rows_lim c aa asz init range cie fde = script_rows aa asz init range cie fde.
+Proof.
+  unfold script_fits, script_rows, script_rows_lim. intros H. apply andb_true_iff in H. destruct H as [H1 H2].
+  rewrite (script_cie_fits c aa cie init_x H1).
+  destruct (script_cie no_caps aa init_x cie) as [sc|e| |]; try reflexivity.
+  apply andb_true_iff in H2. destruct H2 as [G H2]. unfold xguard_ok in G.
+  destruct (xguard c (Some (x_rules sc)) sc) as [[]|e| |]; try discriminate.
+  change (xguard no_caps (Some (x_rules sc)) sc) with (Ok tt : res unit).
+  apply script_fde_fits. exact H2.
+Qed.
